@@ -208,3 +208,54 @@ Example soft_update_values :
   map Qred (weights (soft_update (1 # 4) online target)) = [1 # 4; 7 # 2; 7] /\
   Qred (cell_run (1 # 2) 0 [8; 8]) = 6 /\ Qred (qpow (1 - (1 # 2)) 2 * 0 + wsum (1 # 2) [8; 8]) = 6.
 Proof. repeat split; vm_compute; reflexivity. Qed.
+
+(* ================================================================ multi-agent learners (deepening round) *)
+From Coq Require Import Permutation.
+From AgileV Require Import C08.ModelMA C08.ProofsMA.
+
+(* stacking per-agent dictionaries in agent_ids order does not depend on the key order of the dictionaries *)
+Theorem stacking_is_key_order_independent : forall ids (d d' : adict),
+  NoDup (map fst d) -> Permutation d d' -> stack_ids ids d = stack_ids ids d'.
+Proof. exact stack_ids_perm. Qed.
+Print Assumptions stacking_is_key_order_independent.
+
+(* MADDPG / MATD3 critic loss (repaired code: observations, actions and next actions all stacked in agent_ids order),
+   for arbitrary target actors, any number of (target) critics, every batch: handing the experiences over with the
+   dictionaries in any other key order gives the same loss *)
+Theorem ma_loss_is_key_order_independent :
+  forall ids (PiT : nat -> list Q -> list Q) (Crit CritT : list (list Q -> list Q -> Q)) g batch batch',
+  Forall2 mtrans_perm batch batch' ->
+  ma_loss_net ids PiT Crit CritT g batch = ma_loss_net ids PiT Crit CritT g batch'.
+Proof. exact ma_loss_key_order_independent. Qed.
+Print Assumptions ma_loss_is_key_order_independent.
+
+(* done masking for the multi-agent critic loss is the actor-critic theorem on the evaluated rows
+   (done_masks_next_rows); the pinned code (actions stacked with list(actions.values())) agrees with the repaired one
+   exactly when the action dictionaries are in agent_ids order ... *)
+Theorem ma_pinned_stacking_invisible_in_canonical_order :
+  forall ids (PiT : nat -> list Q -> list Q) (Crit CritT : list (list Q -> list Q -> Q)) g batch,
+  Forall (fun t => map fst (m_a t) = ids /\ NoDup ids) batch ->
+  ma_loss_net_pinned ids PiT Crit CritT g batch = ma_loss_net ids PiT Crit CritT g batch.
+Proof. exact ma_loss_pinned_canonical. Qed.
+Print Assumptions ma_pinned_stacking_invisible_in_canonical_order.
+
+(* ... and is order dependent otherwise *)
+Theorem ma_pinned_stacking_order_dependent_refuted :
+  exists d d' : adict, Permutation d d' /\ NoDup (map fst d) /\ stack_values d <> stack_values d'.
+Proof. exact stack_values_order_dependent_refuted_lemma. Qed.
+Print Assumptions ma_pinned_stacking_order_dependent_refuted.
+
+(* MATD3 gates its soft updates with the learn counter of the agent its loop variable was left on; since every learn
+   call increments every agent's counter, after any number k of calls from equal counters c this is the single-agent
+   delay condition (k + c) mod policy_freq = 0 of soft_update_policy_delay *)
+Theorem matd3_gate_is_policy_delay : forall pf c cs k, cs <> [] -> counters_all c cs ->
+  matd3_gate pf (Nat.iter k matd3_counters_step cs) = ((k + c) mod pf =? 0)%nat.
+Proof. exact matd3_gate_is_delay. Qed.
+Print Assumptions matd3_gate_is_policy_delay.
+
+Example ma_key_order_nonvacuous :
+  let d  : adict := [(0%nat, [1; 2]); (1%nat, [3])] in
+  let d' : adict := [(1%nat, [3]); (0%nat, [1; 2])] in
+  Permutation d d' /\ stack_ids [0%nat; 1%nat] d' = [1; 2; 3] /\ stack_values d' = [3; 1; 2] /\
+  matd3_gate 2 (Nat.iter 3 matd3_counters_step [(0%nat, 1%nat); (1%nat, 1%nat)]) = true.
+Proof. split; [apply perm_swap|]. repeat split; vm_compute; reflexivity. Qed.
